@@ -93,6 +93,12 @@ Example C13_stale_temp_is_truncated :
 Proof. vm_compute. split; reflexivity. Qed.
 Print Assumptions C13_stale_temp_is_truncated.
 
+(* a target that is a mount point: the rename is refused, the save fails and the file is untouched *)
+Theorem C13_refused_rename : forall (prior : option bytes) (new : bytes) (sz : N),
+  target (save_refused prior new sz) = prior /\ temp_of (save_refused prior new sz) = None.
+Proof. exact refused_rename. Qed.
+Print Assumptions C13_refused_rename.
+
 (* the document abstraction: a truncated document never parses (so a partial file could not hide) *)
 Theorem C13_truncation_detected : forall (v : value) (n : nat),
   (n < List.length (ser v))%nat -> parse (firstn n (ser v)) = None.
